@@ -276,6 +276,27 @@ func Queries() Spec {
 	add(send(B, C, 0, "1", "0"), send(B, D, -1, "1", "0.5"), send(B, Q17Long, 0, "1", "0"))
 	// rows whose three amounts are all zero: an empty send creates one for its recipient
 	add(send(B, D, 0, "0", "0"), send(C, D, -1, "0", "0"))
+	// ... and a holder sending away everything it has of a batch leaves one behind (rows are never deleted)
+	sendEverything := func(from, to sdk.AccAddress) E {
+		name := fmt.Sprintf("SendEverythingOfOneBatch(%s->%s)", n(from), n(to))
+		return E{Name: name, Make: func(pre *chain.Snapshot) *explore.Action {
+			for _, b := range pre.Balances {
+				if !bytes.Equal(b.Address, from) {
+					continue
+				}
+				zero := func(x string) bool { return x == "" || x == "0" }
+				if !zero(b.TradableAmount) && zero(b.RetiredAmount) && zero(b.EscrowedAmount) {
+					if batch := pre.BatchByKey(b.BatchKey); batch != nil {
+						a := Send(from, to, batch.Denom, b.TradableAmount, "0")
+						a.Label = name + "[" + batch.Denom + "]"
+						return a
+					}
+				}
+			}
+			return nil
+		}}
+	}
+	add(sendEverything(B, C), sendEverything(C, B), sendEverything(D, B))
 	add(fix(Msg("gov:add-class-creator(B)", &basetypes.MsgAddClassCreator{Authority: G.String(), Creator: B.String()})))
 
 	// --- marketplace: two sellers, two batches, two ask denoms, one removal
